@@ -236,8 +236,11 @@ class GLibEventLoop(EventLoop):
         self._glib_idle_enabled = True
 
     def _glib_idle_callback(self):
-        for callback in self._idle_callbacks.values():
-            callback()
+        for handle in list(self._idle_callbacks):
+            # an earlier callback of this pass may have removed this one
+            callback = self._idle_callbacks.get(handle)
+            if callback is not None:
+                callback()
         self._glib_idle_enabled = False
         return False  # ask glib not to call again (or we would be called
 
